@@ -12,6 +12,10 @@
 (* c.ts / c.com (the element's own time) are rendered but appear in no Judge: *)
 (* the property does not mention them, so no answer may depend on them.      *)
 (*                                                                           *)
+(* Lines of kind "group" (mputil.Group on the case's way) carry                *)
+(*   g = [outer, inner (segments [idx, ori, rev, line]), tainted, crash,       *)
+(*        aerr / applied (ApplyUpdatesUpTo(t1) on a copy, its LineString()), state] *)
+(*                                                                           *)
 (* Failed(ln) evaluates the Judge operators of Updates.tla (the property as  *)
 (* stated).  Diverged(ln) compares everything recorded with the Model; it is *)
 (* reported only when the Judge holds and is a divergence, not a verdict.    *)
@@ -21,7 +25,19 @@ Lines == ndJsonDeserialize(IOEnv.REC)
 
 F(name, ok) == IF ok THEN {} ELSE {name}
 
-Failed(ln) ==
+\* kind "group": [outer, inner, tainted, crash, aerr, applied, state]
+FailedGroup(ln) ==
+  LET c == ln.case  g == ln.got IN
+  F("Group", /\ GroupJ(c.children, c.updates, c.t1, c.members, g.outer \o g.inner, g.applied)
+             /\ (GeomHyp("way", c.children, c.updates, c.t1) => (~g.crash /\ g.aerr = "none")))
+DivergedGroup(ln) ==
+  LET c == ln.case  g == ln.got  chs == c.children  ups == c.updates  ms == c.members IN
+     F("M_group_outer", g.outer = GroupSegs(chs, ups, c.t1, ms, "outer", FALSE))
+  \cup F("M_group_inner", g.inner = GroupSegs(chs, ups, c.t1, ms, "inner", FALSE))
+  \cup F("M_group_tainted", g.tainted = GroupTainted(chs, ups, c.t1, ms, FALSE))
+  \cup F("M_group_pure", g.state = [children |-> chs, pending |-> ups] /\ ~g.crash)
+
+FailedElem(ln) ==
   LET c == ln.case  g == ln.got  k == c.kind  chs == c.children  ups == c.updates IN
      F("Exact1", ExactJ(k, chs, ups, c.t1, g.a1))
   \cup F("Exact2", ExactJ(k, chs, ups, c.t2, g.a2))
@@ -35,13 +51,18 @@ Failed(ln) ==
   \cup F("IndexErr12", g.a1.err = "none" => IndexErrJ(g.a1.children, g.a1.pending, c.t2, g.a12))
   \cup F("Compose", ComposeJ(chs, ups, c.t1, c.t2, g.a12, g.a2))
      \* a query that panics has no geometry to compare (only where GeomJ says anything at all)
-  \cup F("GeomAt1", GeomJ(k, chs, ups, c.t1, g.g1.at, g.g1.applied) /\ (GeomHyp(k, chs, ups, c.t1) => ~g.g1.crash))
-  \cup F("GeomAt2", GeomJ(k, chs, ups, c.t2, g.g2.at, g.g2.applied) /\ (GeomHyp(k, chs, ups, c.t2) => ~g.g2.crash))
+     \* at0 = the query before, at = after ApplyUpdatesUpTo(t) ran on a copy of the element (own child list, same
+     \* update list): "equals the geometry obtained by applying the updates up to t on a copy"
+  \cup F("GeomAt1", /\ GeomJ(k, chs, ups, c.t1, g.g1.at, g.g1.applied) /\ GeomJ(k, chs, ups, c.t1, g.g1.at0, g.g1.applied)
+                     /\ (GeomHyp(k, chs, ups, c.t1) => ~g.g1.crash))
+  \cup F("GeomAt2", /\ GeomJ(k, chs, ups, c.t2, g.g2.at, g.g2.applied) /\ GeomJ(k, chs, ups, c.t2, g.g2.at0, g.g2.applied)
+                     /\ (GeomHyp(k, chs, ups, c.t2) => ~g.g2.crash))
 
 \* known findings that explain *all* failures of the line
 KnownFor(ln, failed) ==
   LET c == ln.case  g == ln.got IN
-  IF /\ failed # {} /\ failed \subseteq {"GeomAt1", "GeomAt2"}
+  IF /\ c.kind # "group"
+     /\ failed # {} /\ failed \subseteq {"GeomAt1", "GeomAt2"}
      /\ ~g.g1.crash /\ ~g.g2.crash
      /\ ("GeomAt1" \in failed => KF_LineStringAtBreak(c.children, c.updates, c.t1, g.g1.at))
      /\ ("GeomAt2" \in failed => KF_LineStringAtBreak(c.children, c.updates, c.t2, g.g2.at))
@@ -51,7 +72,9 @@ SameElems(a, b) == /\ Len(a) = Len(b)
                    /\ \A i \in 1 .. Len(a) :
                         Cardinality({j \in 1 .. Len(a) : a[j] = a[i]}) = Cardinality({j \in 1 .. Len(b) : b[j] = a[i]})
 
-Diverged(ln) ==
+Failed(ln) == IF ln.case.kind = "group" THEN FailedGroup(ln) ELSE FailedElem(ln)
+
+DivergedElem(ln) ==
   LET c == ln.case  g == ln.got  k == c.kind  chs == c.children  ups == c.updates
       st0 == [children |-> chs, pending |-> ups] IN
      F("M_a1", g.a1 = Apply(k, chs, ups, c.t1))
@@ -68,8 +91,12 @@ Diverged(ln) ==
            \* either variant of the loop exit (BreakAtLate) is the Model; which one is decided by GeomJ
       \cup F("M_lsat", /\ g.g1.at \in {LsAt(chs, ups, c.t1, FALSE), LsAt(chs, ups, c.t1, TRUE)}
                        /\ g.g2.at \in {LsAt(chs, ups, c.t2, FALSE), LsAt(chs, ups, c.t2, TRUE)})
-      \cup F("M_lsat_pure", g.g1.state = st0 /\ g.g2.state = st0)
+      \cup F("M_lsat0", g.g1.at0 = g.g1.at /\ g.g2.at0 = g.g2.at)
       \cup F("M_nocrash", ~g.g1.crash /\ ~g.g2.crash))
+     \* the element itself is untouched by the queries and by the calls on its copies
+  \cup F("M_pure", g.g1.state = st0 /\ g.g2.state = st0)
+
+Diverged(ln) == IF ln.case.kind = "group" THEN DivergedGroup(ln) ELSE DivergedElem(ln)
 
 Report(i) ==
   LET ln == Lines[i]  failed == Failed(ln) IN
